@@ -778,6 +778,9 @@ class Interp:
               self.func.cls is not None:
         g = self.repo.resolve_method(self.func.cls, f.attr)
         if g is not None:
+          decos = [ast.unparse(d_) for d_ in g.node.decorator_list]
+          if 'staticmethod' in decos:
+            return self.invoke(g, args, kwargs, e)
           return self.invoke(g, [recv] + args, kwargs, e)
       raise Undecided('method %s of %r' % (f.attr, recv))
     if isinstance(f, ast.Name) and f.id in self.env:
